@@ -983,7 +983,22 @@ def build_unit(unit, outdir, ghost_override=None, variant=None):
                 if mm:
                     last, more = mm.group(1), int(mm.group(2))
                 try:
-                    if first.startswith("after:"):
+                    inner_end = None
+                    if first.startswith("inside:"):
+                        # structural: every line strictly inside the brace block opened on the line with that text
+                        # (inside:nth=K:<line> = the K-th such line); the end field is then `-`
+                        ftxt_ = first[7:].strip()
+                        mnth_ = re.match(r"nth=(\d+):(.*)$", ftxt_)
+                        hits_ = [k for k, l in enumerate(wl) if l.strip() == (mnth_.group(2).strip() if mnth_ else ftxt_)]
+                        bl0 = hits_[int(mnth_.group(1)) - 1 if mnth_ else 0]
+                        off0 = sum(len(l) + 1 for l in wl[:bl0])
+                        msk0 = rustlex.mask(whole)
+                        ob0 = msk0.rfind("{", off0, off0 + len(wl[bl0]) + 1)
+                        if ob0 < 0:
+                            raise StopIteration
+                        i0 = bl0 + 1
+                        inner_end = whole.count("\n", 0, rustlex.match_brace(msk0, ob0)) - 1
+                    elif first.startswith("after:"):
                         # structural start: the line following the one with that text (e.g. a loop header)
                         ftxt_ = first[6:].strip()
                         mnth_ = re.match(r"nth=(\d+):(.*)$", ftxt_)   # after:nth=2:<line> = after the 2nd line with that text
@@ -1006,7 +1021,9 @@ def build_unit(unit, outdir, ghost_override=None, variant=None):
                         i0 = [k for k, l in enumerate(wl) if l.strip() == ftxt][nn - 1]
                     else:
                         i0 = next(k for k, l in enumerate(wl) if l.strip() == first)
-                    if last.startswith("block:"):
+                    if inner_end is not None:
+                        i1 = inner_end
+                    elif last.startswith("block:"):
                         # structural end: the line that closes the brace block opened on the (first) line with that text at or after the start
                         bl = next(k for k, l in enumerate(wl) if k >= i0 and l.strip() == last[6:].strip())
                         off = sum(len(l) + 1 for l in wl[:bl])
